@@ -336,11 +336,15 @@ def histories(ctx, hs):
 
         @rpc(_returns=Unicode)
         def g(ctx): return who(ctx)
+
+    class S2(Service):          # (a service that declares no request header)
+        @rpc(_returns=Unicode)
+        def h(ctx): return who(ctx)
     recs = []
     hs = sorted(hs, key=lambda h: json.dumps(h))
     E = 'http://schemas.xmlsoap.org/soap/envelope/'
     for h in hs:
-        app = Application([S], 'tns', in_protocol=Soap11(), out_protocol=Soap11())
+        app = Application([S, S2], 'tns', in_protocol=Soap11(), out_protocol=Soap11())
         ns = NullServer(app)
         w = WsgiApplication(app)
         cur = None
